@@ -167,7 +167,10 @@ func C09(r *core.Run) {
 				forged := rng.Intn(4)
 				fshape := fmt.Sprint(forged)
 				for k := 0; k < forged; k++ {
-					name := []string{"X-Inverting-Proxy-User-ID", "x-inverting-proxy-user-id", "X-INVERTING-PROXY-USER-ID", "X-Inverting-Proxy-User-Id", "x-InVerTing-proXy-uSer-id"}[rng.Intn(5)]
+					// (the last three are different header names that merely resemble the trusted one: they may travel on as they are,
+					// but must never end up as values of the trusted field)
+					name := []string{"X-Inverting-Proxy-User-ID", "x-inverting-proxy-user-id", "X-INVERTING-PROXY-USER-ID", "X-Inverting-Proxy-User-Id", "x-InVerTing-proXy-uSer-id",
+						"X_Inverting_Proxy_User_ID", "x_inverting_proxy_user_id", "X-Inverting-Proxy-User_ID"}[rng.Intn(8)]
 					val := []string{"forged-" + tok + "@evil.example", "admin@example.com", "", c.Identity}[rng.Intn(4)]
 					c.Fields = append(c.Fields, rawhttp.Field{Name: name, Value: val})
 				}
